@@ -69,9 +69,17 @@ theorem LiveEq.of_agree {a : St H} {b : Stack} (h : Agree a.stack.sp a.stack b) 
 theorem WFS.of_liveEq {cl : CodeLaws ops} {a b : St H} {K : List FDesc} (hw : WFS cl a K) (h : LiveEq a b)
     (hb : b.stack.sp < b.stack.cells.length) : WFS cl b K := by
   obtain ⟨e, hag⟩ := h.agree hw.wf.cap hb
-  refine ⟨by rw [← h.heap]; exact hw.inv, hb, ?_⟩
-  rw [← h.heap, ← h.sp, ← h.bp, ← h.ipL, ← h.ipO]
-  exact hw.wf.frames.congr (fun i hi => (hag.cells i hi).symm)
+  refine ⟨by rw [← h.heap]; exact hw.inv, ⟨hb, ?_⟩, by rw [← h.acc]; exact hw.acc, ?_⟩
+  · rw [← h.heap, ← h.sp, ← h.bp, ← h.ipL, ← h.ipO]
+    exact hw.wf.frames.congr (fun i hi => (hag.cells i hi).symm)
+  · intro t n ht hpre hA
+    rw [← h.heap, ← h.ipL] at ht
+    rw [← h.ipO] at hpre
+    rw [← h.sp] at hA
+    have hA' : a.stack.cellAt (a.stack.sp - 2) = .argc n := by
+      rw [← hag.cells _ (by omega)] at hA; exact hA
+    rw [← h.heap, ← h.acc, ← h.ipL]
+    exact hw.pre t n ht hpre hA'
 
 theorem BpLive.of_liveEq {a b : St H} (hl : BpLive ops a) (h : LiveEq a b) : BpLive ops b := by
   intro off hf
